@@ -155,3 +155,35 @@ Example C07_ex_pipelined :
   c_resps (serve_conn none_app 50 pipelined_segs) = fst (spec_conn none_app 50 (concat pipelined_segs)) /\
   length (c_resps (serve_conn none_app 50 pipelined_segs)) = 3.
 Proof. vm_compute. repeat split. Qed.
+
+(* --- "a reader that has seen an error once": the stream may fail at any point - SIntr-like interruptions (S2Intr, retried by
+   std's read_exact / read_until) and failures std does not retry (S2Fail: a read that times out; inside the chunked framing
+   the bytes consumed so far are lost) - and the handler may call read / fill_buf / consume in any order and ignore every
+   result (Model/BodyFail.v: the wrapper with its [failed] flag, note(), the discard run on drop, beyond_body).  IF the
+   discard reports that it reached the end of the body THEN the body was a valid encoding and the unread bytes are exactly
+   the bytes behind it: the next request is never parsed from a wrong place; and a reader that has returned an error is never
+   "located" (the connection is closed).  [mutant_locates_wrong_place] (Proofs/BodyFail.v) runs the wrapper of seed C05-l
+   (a timed-out read does not set [failed]) inside Coq: it locates "GET /none?smuggled" inside the chunk data.
+   (Bare-LF line ends are Unspecified for spec_decode and accepted by the reader: excluded, [unspecified_can_be_located].) *)
+From KV Require Import Spec.ChunkedSpec Model.BodyIntr Model.BodyFail Proofs.BodyFail.
+
+Theorem C07_located_is_right_chunked : forall lo evs ops fuel b',
+  let b0 := {| br_enc := new_chunked_f lo evs; br_failed := false |} in
+  spec_decode (lo ++ concat (strip2 evs)) <> Unspecified ->
+  br_drain fuel (hrun b0 ops) = (true, b') ->
+  exists p rest, spec_decode (lo ++ concat (strip2 evs)) = Valid p rest /\ br_beyond b' ++ br_ahead b' = rest.
+Proof. exact located_is_right_chunked. Qed.
+Print Assumptions C07_located_is_right_chunked.
+Theorem C07_located_is_right_fixed : forall lo evs n ops fuel b',
+  let b0 := {| br_enc := new_fixed_f lo evs n; br_failed := false |} in
+  br_drain fuel (hrun b0 ops) = (true, b') ->
+  exists p rest, spec_fixed n (lo ++ concat (strip2 evs)) = Valid p rest /\ br_beyond b' ++ br_ahead b' = rest.
+Proof. exact located_is_right_fixed. Qed.
+Print Assumptions C07_located_is_right_fixed.
+Theorem C07_error_sets_failed : forall k b,
+  (is_ok (br_read k b) = false -> br_failed (res_st (br_read k b)) = true) /\
+  (is_ok (br_fill_buf b) = false -> br_failed (res_st (br_fill_buf b)) = true).
+Proof. exact error_sets_failed. Qed.
+Theorem C07_failed_never_located : forall ops b fuel, br_failed b = true -> fst (br_drain fuel (hrun b ops)) = false.
+Proof. exact failed_stays_failed. Qed.
+Print Assumptions C07_failed_never_located.
